@@ -36,6 +36,22 @@ Definition cont_cfg (g : gcfg) (li : Z) : list Z :=
   (Z.of_nat (length (fams g)) :: addrs) ++ (Z.of_nat (length routes) :: concat routes)
   ++ (Z.of_nat (length rules) :: concat rules) ++ (Z.of_nat (length neighs) :: concat neighs).
 
+(* generateContCfgForIPVlan: the pod's address keeps the vSwitch prefix (24 / 64 in the harness) unless the interface is a
+   trunk member (vlan stripping), where it is a host address and the gateway gets a static neighbour entry; the node's
+   address is reached by a link-scoped host route; extra routes are not used by this datapath *)
+Definition subnet_len (f : Z) : Z := if f =? 4 then 24 else 64.
+Definition ipvlan_cont_cfg (g : gcfg) (li : Z) : list Z :=
+  let addrs := map (fun f => [f; g_ip g; if g_strip g then maxlen f else subnet_len f]) (fams g) in
+  let routes := flat_map (fun f =>
+       (if g_def g then [route 0 f 0 0 f (g_gw g) li 0 1] else [])
+       ++ [route 0 f 257 (maxlen f) 0 0 li 253 0]
+       ++ (if g_multi g then [route (tbl_of li) f 0 0 f (g_gw g) li 0 1] else [])) (fams g) in
+  let rules := (if g_multi g then [rule 512 0 0 0 0 0 0 1 (tbl_of li)] else [])
+               ++ (if g_multi g then map (fun f => rule 512 f (g_ip g) (maxlen f) 0 0 0 0 (tbl_of li)) (fams g) else []) in
+  let neighs := flat_map (fun f => [[f; 257; li]] ++ (if g_strip g then [[f; g_gw g; li]] else [])) (fams g) in
+  (Z.of_nat (length addrs) :: concat addrs) ++ (Z.of_nat (length routes) :: concat routes)
+  ++ (Z.of_nat (length rules) :: concat rules) ++ (Z.of_nat (length neighs) :: concat neighs).
+
 Definition host_cfg (g : gcfg) (vi table : Z) : list Z :=
   let addrs := if negb (Z.of_nat (length (g_extra g)) =? 0) then map (fun f => [f; -1; maxlen f]) (fams g) else [] in
   let routes := map (fun f => route 0 f (g_ip g) (maxlen f) 0 0 vi 253 0) (fams g) in
